@@ -519,6 +519,8 @@ func genCore(r *rand.Rand, timed bool) (string, string, string) {
 			}
 		}
 	}
+	// a closing time stamp: the checker judges a step that ran long (a timer fired inside it) by the stamp that follows it
+	g.tick()
 	// release: close everything, answer pending dials
 	_ = sock.Close()
 	for d := range g.dl {
